@@ -85,6 +85,16 @@ func (impl Implementation) Dlarf(side blas.Side, m, n int, v []float64, incv int
 	if lastv == -1 || lastc == -1 {
 		return
 	}
+	if incv < 0 {
+		// With a negative increment BLAS addresses element j of a vector
+		// of length lastv+1 at (lastv-j)*|incv|, so the start of v must be
+		// moved past the trailing zeros that were dropped above.
+		full := n - 1
+		if applyleft {
+			full = m - 1
+		}
+		v = v[(full-lastv)*-incv:]
+	}
 	bi := blas64.Implementation()
 	if applyleft {
 		// Form H * C
